@@ -16,7 +16,8 @@ import (
 	"strings"
 )
 
-func anchorCoverage(e *Engine, prop string) map[string]interface{} {
+// anchorFiles: the files (relative to the repository root) property prop is anchored in (properties.jsonl, anchors.files).
+func anchorFiles(prop string) []string {
 	f, err := os.Open(filepath.Join(verifDir, "properties.jsonl"))
 	if err != nil {
 		return nil
@@ -36,6 +37,11 @@ func anchorCoverage(e *Engine, prop string) map[string]interface{} {
 			files = rec.Anchors.Files
 		}
 	}
+	return files
+}
+
+func anchorCoverage(e *Engine, prop string) map[string]interface{} {
+	files := anchorFiles(prop)
 	out := map[string]interface{}{}
 	totalNo, totalThis := 0, 0
 	for _, rel := range files {
